@@ -7,8 +7,10 @@
   gen/MethodsGen.v    the loop-free methods of the core modules as monadic Gallina (tied to the hand models
                       by Proofs/MethodsTie.v)
   gen/LoopsGen.v      functions with loops (BitVector scans, the bit and unary iterators; Rank9SelIndex / Rank9Sel and
-                      DArrayIndex / DArray builders and selects) as monadic Gallina over the loop combinators of
-                      Base/Loops.v (tied to the hand models by Proofs/LoopsTieBV.v and Proofs/LoopsTieIdx.v)
+                      DArrayIndex / DArray builders and selects; CompactVector, EliasFanoBuilder / EliasFano and its
+                      iterator, SArray, PrefixSummedEliasFano) as monadic Gallina over the loop combinators of
+                      Base/Loops.v (tied to the hand models by Proofs/LoopsTieBV.v, Proofs/LoopsTieIdx.v and
+                      Proofs/LoopsTieSeq.v)
   gen/fingerprints.json  hash of the normalised token stream of every non-test Rust function
 
 Files are rewritten only when their content changes (so `make` sees stable timestamps).
@@ -721,6 +723,9 @@ COQ_RESERVED = set("""as at cofix else end exists exists2 fix for forall fun if 
     cfg res W MASK64 list option N bool unit tt""".split())
 
 USIZE, BOOL, UNIT, ISIZE, U16 = ("usize",), ("bool",), ("unit",), ("isize",), ("u16",)
+RANGEVAL = ("rangeval",)                  # a `Range<usize>` value (parameter / argument): the pair (start, end)
+# registry key -> name of the struct in its Rust file, where they differ (three structs are called `Iter`)
+RUST_NAME = {}
 ZCMPS = {"==": "Z.eqb %s %s", "!=": "negb (Z.eqb %s %s)", "<": "Z.ltb %s %s", "<=": "Z.leb %s %s",
          ">": "Z.ltb %s %s", ">=": "Z.leb %s %s"}
 LOOP_KINDS = ("for", "while", "whilelet", "loop")
@@ -735,8 +740,11 @@ def coq_ident(name):
 def parse_rtype(s, self_name, generics=None):
     s = " ".join(s.split())
     s = re.sub(r"^&\s*('[a-z_]+\s+)?(mut\s+)?", "", s)
+    s = re.sub(r"\s*<\s*'[a-z_]+\s*>$", "", s)           # Iter<'a>, UnaryIter<'a>
     if generics and s in generics:
         return generics[s]
+    if s == "Range<usize>":                               # a `lo..hi` value: the pair (lo, hi)
+        return RANGEVAL
     if s.startswith("(") and s.endswith(")") and s != "()":
         return ("tuple", [parse_rtype(x, self_name, generics) for x in rp.split_top(s[1:-1], ",")])
     if s == "usize":
@@ -753,7 +761,7 @@ def parse_rtype(s, self_name, generics=None):
         return ({"Option": "opt", "Vec": "vec", "Result": "result"}[m.group(1)], inner)
     m = re.fullmatch(r"\[(.*)\]", s)
     if m:
-        return ("vec", parse_rtype(m.group(1), self_name))
+        return ("vec", parse_rtype(m.group(1), self_name, generics))
     if s == "Self":
         if self_name is None:
             raise ParseError("`Self` outside an impl")
@@ -775,6 +783,8 @@ def coq_type(t):
         return "Z"
     if k == "u16":
         return "N"
+    if k == "rangeval":
+        return "(N * N)"
     if k == "tuple":
         return "(%s)" % " * ".join(coq_type(x) for x in t[1])
     if k == "opt":
@@ -845,7 +855,7 @@ def render(items, final):
             if "\n" in term:
                 term = "(" + term.replace("\n", "\n  ") + ")"
             lines.append("%s <- %s ;;" % (it[3], term))
-            lines.append("match %s with inr v_ => Ok v_ | inl %s =>" % (it[3], it[1]))
+            lines.append("match %s with inr v_ => Ok %s | inl %s =>" % (it[3], it[4] if len(it) > 4 else "v_", it[1]))
             closers.append("end")
         else:
             raise ParseError("internal: unknown item %r" % (it,))
@@ -883,7 +893,7 @@ class MethodsGen:
                     names.setdefault(n, []).append((None, p, r, b))
             else:
                 for trait, ty, body in rp.impl_blocks(src):
-                    if ty != owner:
+                    if ty != RUST_NAME.get(owner, owner):
                         continue
                     im = re.search(r"\btype\s+Item\s*=\s*([^;]+);", body)
                     if im:
@@ -902,7 +912,7 @@ class MethodsGen:
             rec, fields = RECORDS.get(owner, (None, None))
             if fields is None:
                 continue
-            decl, _ = parse_struct(self.src[owner], owner)
+            decl, _ = parse_struct(self.src[owner], RUST_NAME.get(owner, owner))
             if [(f, t.replace(" ", "")) for f, t in decl] != [(f, t.replace(" ", "")) for f, t, _ in fields]:
                 raise ParseError("struct %s changed: source has %r, the model record %s has %r" % (
                     owner, decl, rec, [(f, t) for f, t, _ in fields]))
@@ -931,6 +941,10 @@ class MethodsGen:
         for part in rp.split_top(self.where.get((owner, trait, name), ""), ","):
             if re.fullmatch(r"\s*Self\s*:\s*Sized\s*", part):
                 continue
+            m = re.fullmatch(r"\s*([A-Z])\s*:\s*ToPrimitive\s*", part)
+            if m:                                          # instantiated at usize: `to_usize` is the identity, never None
+                out[m.group(1)] = USIZE
+                continue
             m = re.fullmatch(r"\s*([A-Z])\s*:\s*IntoIterator\s*<\s*Item\s*=\s*([A-Za-z0-9_]+)\s*>\s*", part)
             if not m:
                 raise ParseError("unsupported where clause %r" % part.strip())
@@ -952,6 +966,14 @@ class MethodsGen:
         ptys = [(n, parse_rtype(t, self_name, g)) for n, t in rp.typed_params(params)]
         rty = parse_rtype(self.ret_source(owner, tr, ret), self_name, g) if ret else UNIT
         return rp.self_kind(params), ptys, rty
+
+    def alias(self, from_owner, name):
+        """the registry key of the struct called `name` in the file of from_owner (LoopsGen: the structs called `Iter`)"""
+        return name
+
+    def iterator_next(self, owner):
+        """(coq name, item type) of the generated `Iterator::next` of a struct, or None (LoopsGen only)"""
+        return None
 
     broadword_consts = {}      # constants of broadword.rs usable as `broadword::NAME` (LoopsGen only)
     broadword_fns = {}         # functions of broadword.rs called in their generated form (LoopsGen only)
@@ -989,7 +1011,7 @@ class MethodsGen:
         raise ParseError("call to %s::%s, which is neither a translated function nor a known model function" % (owner, name))
 
     def has_derive_default(self, owner):
-        m = re.search(r"#\[derive\(([^)]*)\)\]\s*pub struct %s\b" % owner, self.src[owner])
+        m = re.search(r"#\[derive\(([^)]*)\)\]\s*pub struct %s\b" % RUST_NAME.get(owner, owner), self.src[owner])
         return bool(m and "Default" in [x.strip() for x in m.group(1).split(",")])
 
     def default_term(self, ty):
@@ -1249,6 +1271,8 @@ class FnBody:
             return self.binop(e, out)
         if k == "field":
             t, ty = self.expr(e[1], out)
+            if ty == RANGEVAL and e[2] in ("start", "end"):
+                return "(%s %s)" % ("fst" if e[2] == "start" else "snd", t), USIZE
             if ty[0] != "struct":
                 raise ParseError("field access on %r" % (ty,))
             for f, fty, proj in self.record_fields(ty[1]):
@@ -1286,10 +1310,24 @@ class FnBody:
             return self.mcall(e, out)
         if k == "try":
             t, ty = self.expr(e[1], out)
-            if ty[0] != "opt" or self.ret[0] != "opt" or self.kind == "mut":
-                raise ParseError("`?` is supported on an Option in a function returning an Option")
             if self.value_scope or self.join_scope:
                 raise ParseError("`?` inside a conditional expression or a joined if/else")
+            if ty[0] == "result" and self.ret[0] == "result":          # Err(e)? returns Err(e): "rejected"
+                if self.kind == "mut":
+                    rejected = "(%s, false)" % self.env["self"][0]
+                elif self.kind in ("static", "ref"):
+                    rejected = "None"
+                else:
+                    raise ParseError("`?` on a Result in a function taking self by value")
+                if ty[1] == UNIT:                                      # the value is the boolean "returned Ok(())"
+                    out.append(("ifret", "(negb %s)" % t, "Ok %s" % self.inj(rejected)))
+                    return "tt", UNIT
+                v = self.fresh()
+                out.append(("try", t, v, "Ok %s" % self.inj(rejected)))
+                return v, ty[1]
+            if ty[0] != "opt" or self.ret[0] != "opt" or self.kind == "mut":
+                raise ParseError("`?` is supported on an Option in a function returning an Option (or on a Result in "
+                                 "a function returning a Result)")
             v = self.fresh()
             out.append(("try", t, v, "Ok %s" % self.inj("None")))
             return v, ty[1]
@@ -1444,6 +1482,7 @@ class FnBody:
         owner, name = f[1]
         if owner == "Self":
             owner = self.owner
+        owner = self.gen.alias(self.owner, owner)
         if owner == "Vec" and name == "with_capacity":
             if len(args) != 1 or self.expr(args[0], out)[1] != USIZE:    # evaluated for its effects only
                 raise ParseError("Vec::with_capacity takes a usize")
@@ -1471,6 +1510,13 @@ class FnBody:
             if ty == ("vec", None) and pty[0] == "vec":
                 self.refine_vec(a, pty)
                 ty = pty
+            if ty[0] == "range" and pty == RANGEVAL and not ty[3]:        # `lo..hi` for a Range<usize> parameter
+                t, ty = "(%s, %s)" % (ty[1], ty[2]), RANGEVAL
+            if ty[0] == "struct" and pty[0] == "vec" and self.gen.iterator_next(ty[1]) is not None:
+                nxt, item = self.gen.iterator_next(ty[1])                 # an iterator struct for an IntoIterator
+                if item != pty[1]:                                        # parameter: the list of the items it yields
+                    raise ParseError("%s::%s: argument %s yields %r, expected %r" % (owner, name, pn, item, pty[1]))
+                t, ty = self.bind(out, "iter_collect (%s c) %s" % (nxt, t)), pty
             if t is None or (ty != pty and not (ty[0] == "opt" and ty[1] is None and pty[0] == "opt")):
                 raise ParseError("%s::%s: argument %s has type %r, expected %r" % (owner, name, pn, ty, pty))
             ats.append(t)
@@ -1611,6 +1657,20 @@ class FnBody:
                 if not o:
                     return "(match %s with None => None | Some %s => Some %s end)" % (rt, x, t), ("opt", ty)
                 return self.bind(out, match_opt(rt, "Ok None", x, self.res_of(o, "(Some %s)" % t))), ("opt", ty)
+            if name == "and_then" and len(args) == 1:
+                o, t, ty, x = self.closure_body(self.closure_arg(args[0], 1), rty[1])
+                if ty[0] != "opt":
+                    raise ParseError("and_then with a closure that does not return an Option")
+                if not o:
+                    return "(match %s with None => None | Some %s => %s end)" % (rt, x, t), ty
+                return self.bind(out, match_opt(rt, "Ok None", x, self.res_of(o, t))), ty
+            if name == "ok_or_else" and len(args) == 1:                  # Option -> Result (an Err is "rejected" = None)
+                clo = self.closure_arg(args[0], 0)
+                err = clo[2]
+                if err[0] == "block" and not err[1] and err[2] is not None:
+                    err = err[2]
+                self.check_error_value(err)
+                return rt, ("result", rty[1])
             raise ParseError("unsupported Option method .%s()" % name)
         if k == "result":
             if name in ("unwrap", "expect"):
@@ -1635,6 +1695,10 @@ class FnBody:
                 return "(checked_add %s %s)" % (rt, ats[0][0]), ("opt", USIZE)
             if name == "saturating_add" and len(ats) == 1:
                 return "(N.min (%s + %s) MASK64)" % (rt, ats[0][0]), USIZE
+            if name == "max" and len(ats) == 1:
+                return "(N.max %s %s)" % (rt, ats[0][0]), USIZE
+            if name == "to_usize" and not ats:                           # ToPrimitive::to_usize at T = usize
+                return "(Some %s)" % rt, ("opt", USIZE)
             if name in ("wrapping_mul", "wrapping_shl") and len(ats) == 1:
                 return "(%s %s %s)" % (METHODS[name][0], rt, ats[0][0]), USIZE
             raise ParseError("unsupported usize method .%s()" % name)
@@ -1645,7 +1709,25 @@ class FnBody:
                     raise ParseError("contains on a non-usize")
                 hi = "N.leb %s %s" % (t, rty[2]) if rty[3] else "N.ltb %s %s" % (t, rty[2])
                 return "(andb (N.leb %s %s) (%s))" % (rty[1], t, hi), BOOL
+            if name == "fold" and len(args) == 2 and not rty[3]:         # (a..b).fold(init, |acc, i| e)
+                init, ity = self.expr(args[0], out)
+                clo = self.closure_arg(args[1], 2)
+                acc, i = clo[1]
+
+                def body(o):
+                    self.env[acc] = (coq_ident(acc), ity)
+                    self.env[i] = (coq_ident(i), USIZE)
+                    return self.expr(clo[2], o)
+                o, t, ty = self.value_block(body)
+                if ty != ity or init is None:
+                    raise ParseError("fold whose closure does not return the type of the initial value")
+                return self.bind(out, "fold_res (fun %s %s =>\n%s\n  ) (nrange %s %s) %s" % (
+                    coq_ident(acc), coq_ident(i), indent(self.res_of(o, t), 4), rty[1], rty[2], init)), ity
             raise ParseError("unsupported range method .%s()" % name)
+        if k == "rangeval":
+            if name == "is_empty" and not args:
+                return "(N.leb (snd %s) (fst %s))" % (rt, rt), BOOL
+            raise ParseError("unsupported Range method .%s()" % name)
         raise ParseError("method .%s() on %r" % (name, rty))
 
     # -- statements --------------------------------------------------------------------------------
@@ -1694,6 +1776,18 @@ class FnBody:
                 raise ParseError("unsupported let")
             self.declare(s[1], t, ty, out)
             return False
+        if k == "lettuple" and s[2][0] != "tuple":                # let (a, b) = <expression of a tuple type>;
+            t, ty = self.expr(s[2], out)
+            if t is None or ty[0] != "tuple" or len(ty[1]) != len(s[1]) or len(set(s[1])) != len(s[1]):
+                raise ParseError("tuple pattern needs a value of a tuple type of the same length")
+            for n in s[1]:
+                if n in self.mutparams:
+                    raise ParseError("`let %s` shadows a `&mut` parameter" % n)
+            out.append(("let", "'(%s)" % ", ".join(coq_ident(n) for n in s[1]), t))
+            for n, nty in zip(s[1], ty[1]):
+                self.env[n] = (coq_ident(n), nty)
+                self.declared[-1].add(n)
+            return False
         if k == "lettuple":
             if s[2][0] != "tuple" or len(s[2][1]) != len(s[1]):
                 raise ParseError("tuple pattern needs a tuple literal of the same length")
@@ -1719,6 +1813,9 @@ class FnBody:
             return False
         if k == "return":
             out[:] = [("final", self.result(s[1], out))]          # result() has consumed the bindings of out
+            return True
+        if k == "panic":                                          # panic!(".."): the message is dropped
+            out[:] = [("final", render(out, "Panic"))]
             return True
         if k == "break":
             if not self.loops or self.loops[-1]["brk"] is None:
@@ -1800,7 +1897,7 @@ class FnBody:
 
     @staticmethod
     def ends_with_return(block):
-        return bool(block[1]) and block[1][-1][0] in ("return", "break") and block[2] is None
+        return bool(block[1]) and block[1][-1][0] in ("return", "break", "panic") and block[2] is None
 
     @classmethod
     def contains_return(cls, node, brk=True):
@@ -1813,6 +1910,14 @@ class FnBody:
             return any(cls.contains_return(x, brk) for x in node)
         if isinstance(node, list):
             return any(cls.contains_return(x, brk) for x in node)
+        return False
+
+    @classmethod
+    def mentions(cls, node, name):
+        if isinstance(node, tuple):
+            return node == ("var", name) or any(cls.mentions(x, name) for x in node)
+        if isinstance(node, list):
+            return any(cls.mentions(x, name) for x in node)
         return False
 
     def inj(self, value):
@@ -1883,6 +1988,8 @@ class FnBody:
             if els is not None and self.ends_with_return(then) and not (self.value_scope or self.join_scope):
                 out.append(("ifret", cond, self.jump_branch(then)))       # the else part continues with the rest
                 return self.inline_block(els, out)
+            if els is None and not self.contains_break(then) and not (self.value_scope or self.join_scope):
+                return self.if_exit_join(cond, then, out)
             raise ParseError("unsupported control flow (return / ? inside one branch of an if/else)")
         # join: neither branch returns
         self.join_scope += 1
@@ -1928,6 +2035,33 @@ class FnBody:
                 self.assigned[-1].add(n)
         return False
 
+    def if_exit_join(self, cond, then, out):
+        """`if c { ..; e?; .. }` (no else, no break) whose block can return but also falls through: the block yields
+        `inr v` (return v) or `inl vars` (the variables it assigns); the return is re-injected after the join"""
+        saved_wrap, self.ret_wrap = self.ret_wrap, "(inr %s)"
+        outer = dict(self.env)
+        locals_ = set()
+        try:
+            def branch():
+                o = []
+                if self.inline_block(then, o):
+                    raise ParseError("internal: a block that falls through ended with a jump")
+                locals_.update(self.declared[-1])
+                return o
+            (o1, a1, env1) = self.scoped(branch)
+        finally:
+            self.ret_wrap = saved_wrap
+        names = sorted(n for n in a1 if n in outer)
+        self.check_join_shadow(names, locals_)
+        cn = [outer[n][0] for n in names]
+        t1 = render(o1, "Ok (inl %s)" % (self.tuple_term([env1[n][0] for n in names]) if names else "tt"))
+        t2 = "Ok (inl %s)" % (self.tuple_term(cn) if names else "tt")
+        out.append(("bindret", self.tuple_term(cn) if names else "_", ite(cond, t1, t2), self.fresh(), self.inj("v_")))
+        for n in names:
+            if n not in self.declared[-1]:
+                self.assigned[-1].add(n)
+        return False
+
     @staticmethod
     def check_join_shadow(names, locals_):
         """a variable joined after an if/else must not be shadowed by a `let` of a branch (the Coq name would be captured)"""
@@ -1966,6 +2100,10 @@ class FnBody:
             ((o2, t2, ty2), a2, env2) = self.scoped(lambda: branch(e[3]))
         finally:
             self.join_scope -= 1
+        if ty1 == ("opt", None) and ty2[0] == "opt":
+            ty1 = ty2
+        if ty2 == ("opt", None) and ty1[0] == "opt":
+            ty2 = ty1
         if ty1 != ty2:
             raise ParseError("branches of different types")
         names = sorted(n for n in (a1 | a2) if n in outer)
@@ -2089,11 +2227,52 @@ class FnBody:
             raise ParseError("`for` over something that is not a vector, a slice or a range")
         return t, ty[1]
 
+    def struct_iterator(self, e, out):
+        """`for x in e` where e is an iterator struct with a translated `Iterator::next`: bind it to a hidden local
+        variable (part of the loop state, as `next` takes `&mut self`) and return its name; None for anything else"""
+        probe = e
+        while probe[0] == "ref":
+            probe = probe[1]
+        if not (probe[0] == "mcall" or probe[0] == "call" or (probe[0] == "var" and probe[1] in self.env)):
+            return None
+        if probe[0] == "mcall" and probe[2] in ("iter", "into_iter", "step_by"):
+            scratch = []
+            try:
+                rty = self.expr(probe[1], scratch)[1]
+            except ParseError:
+                return None
+            if rty[0] != "struct":
+                return None                                    # v.iter() on a vector / slice, (a..b).step_by(s)
+        saved = self.counter
+        scratch = []
+        t, ty = self.expr(probe, scratch)
+        if ty[0] != "struct" or self.gen.iterator_next(ty[1]) is None:
+            self.counter = saved
+            return None
+        out.extend(scratch)
+        self.loop_ids += 1
+        hidden, cname = "@iter%d" % self.loop_ids, "it%d_" % self.loop_ids
+        if any(cn == cname for cn, _ in self.env.values()):
+            raise ParseError("the name %s is taken" % cname)
+        self.env[hidden] = (cname, ty)
+        self.declared[-1].add(hidden)
+        last = out[-1] if out else None
+        if last and last[0] == "bind" and last[1] == t and re.fullmatch(r"t\d+", t):
+            out[-1] = ("bind", cname, last[2])
+        else:
+            out.append(("let", cname, t))
+        return hidden
+
     def loop_stmt(self, node, out):
         """for / while / while let / loop in statement position; True if the loop cannot fall through"""
         kind, body = node[0], node[-1]
         if self.value_scope:
             raise ParseError("loop inside a conditional expression")
+        if kind == "for":
+            it = self.struct_iterator(node[2], out)
+            if it is not None:           # for x in <iterator struct>  ==  while let Some(x) = it.next()
+                return self.loop_stmt(("whilelet", node[1] if node[1] is not None else "_",
+                                       ("mcall", ("var", it), "next", []), body), out)
         has_ret = self.contains_return(body, brk=False)
         has_brk = kind in ("while", "whilelet") or self.contains_break(body)
         if has_ret and self.join_scope:
@@ -2230,6 +2409,31 @@ class FnBody:
             (t1, _, _) = self.scoped(lambda: self.result(e[2], []))
             (t2, _, _) = self.scoped(lambda: self.result(e[3], []))
             return render(out, ite(cond, t1, t2))
+        if e is not None and e[0] == "iflet" and e[4] is not None:
+            # `if let Some(x) = e { .. v } else { .. w }` as the result.  With `&mut place` as the scrutinee, x is a
+            # local copy that is written back (`place = Some(x)`) at the end of the block; the block must not leave
+            # early and its value must not mention x.
+            _, name, scrut, then, els = e
+            place = scrut[1] if scrut[0] == "refmut" else None
+            t, ty = self.expr(place if place is not None else scrut, out)
+            if ty[0] != "opt" or ty[1] is None:
+                raise ParseError("`if let Some(..)` on a non-Option")
+            if place is not None:
+                if self.contains_return(then) or then[2] is None or self.mentions(then[2], name) \
+                        or self.mentions(place, name):
+                    raise ParseError("`if let Some(%s) = &mut ..`: unsupported use of the reference" % name)
+                then = ("block", then[1] + [("assignp", place, None, ("call", ("var", "Some"), [("var", name)]))], then[2])
+            x = coq_ident(name)
+
+            def some_branch():
+                if name in self.env:
+                    raise ParseError("`if let Some(%s)` shadows an outer variable" % name)
+                self.env[name] = (x, ty[1])
+                self.declared[-1].add(name)
+                return self.result(then, [])
+            (t1, _, _) = self.scoped(some_branch)
+            (t2, _, _) = self.scoped(lambda: self.result(els, []))
+            return render(out, "match %s with\n| Some %s =>\n%s\n| None =>\n%s\nend" % (t, x, indent(t1, 4), indent(t2, 4)))
         is_ok = e is not None and e[0] == "call" and e[1] == ("var", "Ok") and len(e[2]) == 1
         is_err = e is not None and e[0] == "call" and e[1] == ("var", "Err") and len(e[2]) == 1
         if is_err:
@@ -2296,6 +2500,9 @@ class FnBody:
                 if self.if_stmt(tail, out):
                     raise ParseError("internal: if without else cannot return on both sides")
                 tail = None
+            elif tail is not None and tail[0] == "iflet" and tail[4] is not None and self.ret != UNIT \
+                    and not self.contains_return(tail):
+                pass                                              # the value of the function: result()
             elif tail is not None and tail[0] in ("for", "while", "whilelet", "loop", "iflet"):
                 if (self.if_stmt if tail[0] == "iflet" else self.loop_stmt)(tail, out):
                     return out.pop()[1]
@@ -2382,6 +2589,26 @@ def gen_methods(repo):
 #  * `let x = if c { stmts; v } else { stmts; w };` whose branches contain loops: a join of x and the outer variables
 #    assigned in either branch; `if let Some(x) = e { .. } [else { .. }]` without return / break: a join by `match`.
 #    A `break` inside a loop that stands inside such a join leaves that loop (the join itself cannot be left).
+#
+# Forms added for the sequence structures (CompactVector, EliasFanoBuilder, EliasFano and its Iter, SArray,
+# PrefixSummedEliasFano; tied by Proofs/LoopsTieSeq.v):
+#  * `T: ToPrimitive` is instantiated at usize (`&[T]` is a `list N`): `x.to_usize()` is `Some x`,
+#    `.ok_or_else(|| anyhow!(..))` turns an Option into a Result (None = Err), `a.max(b)` is N.max.
+#  * `e?` on a Result in a function returning a Result: the function returns "rejected" (`None`, or `(self, false)` for
+#    a `&mut self` method returning Result<()>), also from inside a loop (the loop then has the return-carrying shape).
+#    `if c { ..; e?; .. }` without else, whose block can return but also falls through: the block yields `inr v` (return
+#    v) or `inl vars`, and the return is re-injected after the join (FnBody.if_exit_join).
+#  * `(a..b).fold(init, |acc, i| e)`: `fold_res (fun acc i => e) (nrange a b) init`; `opt.and_then(|x| e)`.
+#  * an iterator struct (a struct of this file with a translated `Iterator::next`): `for x in it` is
+#    `while let Some(x) = it.next()` over a hidden local `itN_` that belongs to the loop state (loopN W); as the argument for
+#    an `I: IntoIterator<Item = T>` parameter it is `iter_collect (next c) it` (Base/Loops.v): the list of the items it
+#    yields.  Three Rust structs are called `Iter`: registry keys EfIter / CvIter / PsIter (RUST_NAME, LOOP_ITER_ALIAS).
+#  * `panic!(..)` as a statement or in tail position: `Panic` (a jump, like `return`).
+#  * `Range<usize>` parameters / arguments: the pair (start, end); `.start`, `.end`, `.is_empty()`.
+#  * `let (a, b) = <expression of a tuple type>;`, e.g. an if/else of tuples.
+#  * `if let Some(x) = e { .. v } else { .. w }` as the value of the function: a `match`; with `&mut self.f` as the
+#    scrutinee x is a local copy written back (`self.f = Some(x)`) at the end of the block (the block must not leave
+#    early and its value must not mention x).
 # ---------------------------------------------------------------------------------------------
 
 LOOP_RECORDS = {
@@ -2389,8 +2616,29 @@ LOOP_RECORDS = {
     "UnaryIter": ("unaryiter", [("bv", "&'a BitVector", "ui_bv"), ("pos", "usize", "ui_pos"),
                                 ("buf", "usize", "ui_buf")]),
 }
+# iterator structs of the sequence modules (three Rust structs called `Iter`: registry keys EfIter, CvIter, PsIter)
+LOOP_RECORDS_SEQ = {
+    "EfIter": ("efiter_g", [("ef", "&'a EliasFano", "ei_ef"), ("k", "usize", "ei_k"),
+                            ("high_iter", "Option<UnaryIter<'a>>", "ei_high_iter"), ("low_buf", "usize", "ei_low_buf"),
+                            ("low_mask", "usize", "ei_low_mask"), ("chunks_in_word", "usize", "ei_chunks_in_word"),
+                            ("chunks_avail", "usize", "ei_chunks_avail")]),
+    "CvIter": ("cviter", [("cv", "&'a CompactVector", "ci_cv"), ("pos", "usize", "ci_pos")]),
+    "PsIter": ("psiter", [("efl", "&'a PrefixSummedEliasFano", "pi_efl"), ("pos", "usize", "pi_pos")]),
+}
+LOOP_RECORDS.update(LOOP_RECORDS_SEQ)
+RUST_NAME.update({"EfIter": "Iter", "CvIter": "Iter", "PsIter": "Iter"})
+# the struct called `Iter` in the file of each of these owners
+LOOP_ITER_ALIAS = {"EliasFano": "EfIter", "EfIter": "EfIter", "CompactVector": "CvIter", "CvIter": "CvIter",
+                   "PrefixSummedEliasFano": "PsIter", "PsIter": "PsIter"}
 RECORDS.update(LOOP_RECORDS)
 RECORDS["Rank9Sel"] = ("r9sel", [("bv", "BitVector", "r9_bv"), ("rs", "Rank9SelIndex", "r9_rs")])   # Model/Rank9.v
+RECORDS["EliasFanoBuilder"] = ("efbuilder", [                                                        # Model/EliasFano.v
+    ("high_bits", "BitVector", "b_high"), ("low_bits", "BitVector", "b_low"), ("universe", "usize", "b_universe"),
+    ("num_vals", "usize", "b_num_vals"), ("pos", "usize", "b_pos"), ("last", "usize", "b_last"),
+    ("low_len", "usize", "b_low_len")])
+RECORDS["SArray"] = ("sarray", [("ef", "Option<EliasFano>", "sa_ef"), ("num_bits", "usize", "sa_num_bits"),   # Model/SArray.v
+                                ("num_ones", "usize", "sa_num_ones"), ("has_rank", "bool", "sa_has_rank")])
+RECORDS["PrefixSummedEliasFano"] = ("psef", [("ef", "EliasFano", "ps_ef")])                              # Model/Psef.v
 
 LOOP_TYPE_FILES = {
     "BitVector": "src/bit_vectors/bit_vector.rs",
@@ -2400,6 +2648,16 @@ LOOP_TYPE_FILES = {
     "Rank9Sel": "src/bit_vectors/rank9sel.rs",
     "DArrayIndex": "src/bit_vectors/darray/inner.rs",
     "DArray": "src/bit_vectors/darray.rs",
+    # Proofs/LoopsTieSeq.v
+    "utils": "src/utils.rs",
+    "CompactVector": "src/int_vectors/compact_vector.rs",
+    "CvIter": "src/int_vectors/compact_vector.rs",
+    "EliasFanoBuilder": "src/mii_sequences/elias_fano.rs",
+    "EliasFano": "src/mii_sequences/elias_fano.rs",
+    "EfIter": "src/mii_sequences/elias_fano/iter.rs",
+    "SArray": "src/bit_vectors/sarray.rs",
+    "PrefixSummedEliasFano": "src/int_vectors/prefix_summed_elias_fano.rs",
+    "PsIter": "src/int_vectors/prefix_summed_elias_fano.rs",
 }
 LOOP_MODULES = [
     ("bit_vector", "BitVector", "bit_vector"),
@@ -2409,11 +2667,21 @@ LOOP_MODULES = [
     ("rank9sel", "Rank9Sel", None),
     ("darray_index", "DArrayIndex", "darray"),
     ("darray", "DArray", None),
+    # Proofs/LoopsTieSeq.v
+    ("compact_vector", "CompactVector", None),
+    ("compact_vector_iter", "CvIter", None),
+    ("elias_fano_builder", "EliasFanoBuilder", None),
+    ("elias_fano", "EliasFano", "elias_fano"),
+    ("elias_fano_iter", "EfIter", None),
+    ("sarray", "SArray", None),
+    ("psef", "PrefixSummedEliasFano", None),
+    ("psef_iter", "PsIter", None),
 ]
 LOOP_TARGETS = {
     "bit_vector": [(None, "new"), (None, "from_bit"), (None, "from_bits"), ("Extend", "extend"), ("Rank", "rank1"),
                    ("Select", "select1"), ("Select", "select0"), (None, "predecessor1"), (None, "predecessor0"),
-                   (None, "successor1"), (None, "successor0")],
+                   (None, "successor1"), (None, "successor0"),
+                   (None, "iter"), (None, "unary_iter")],      # LOOP_LATE: emitted after the index structures
     "bit_vector_iter": [(None, "new"), ("Iterator", "next"), ("Iterator", "size_hint")],
     "unary_iter": [(None, "new"), (None, "position"), (None, "skip1"), (None, "skip0"), ("Iterator", "next")],
     # Proofs/LoopsTieIdx.v
@@ -2426,7 +2694,23 @@ LOOP_TARGETS = {
     "darray_index": [(None, "get_word_over_one"), (None, "get_word_over_zero"), (None, "flush_cur_block"),
                      (None, "build"), (None, "new"), (None, "select")],
     "darray": [(None, "from_bits"), (None, "enable_rank"), (None, "enable_select0"), ("Build", "build_from_bits")],
+    # Proofs/LoopsTieSeq.v
+    "compact_vector": [(None, "from_int"), (None, "from_slice"), (None, "extend"), ("Access", "access")],
+    "compact_vector_iter": [(None, "new"), ("Iterator", "next"), ("Iterator", "size_hint")],
+    "elias_fano_builder": [(None, "new"), (None, "push"), (None, "extend"), (None, "build")],
+    "elias_fano": [(None, "from_bits"), (None, "enable_rank"), (None, "rank"), (None, "iter"),
+                   (None, "binsearch_range"), (None, "binsearch")],
+    "elias_fano_iter": [(None, "new"), ("Iterator", "next")],
+    "sarray": [(None, "from_bits"), (None, "enable_rank"), (None, "has_rank"), (None, "predecessor1"),
+               (None, "successor1"), (None, "len"), ("Build", "build_from_bits"), ("NumBits", "num_bits"),
+               ("NumBits", "num_ones"), ("Access", "access"), ("Rank", "rank1"), ("Rank", "rank0"),
+               ("Select", "select1")],
+    "psef": [(None, "from_slice"), (None, "len"), (None, "sum"), ("Access", "access")],
+    "psef_iter": [(None, "new"), ("Iterator", "next"), ("Iterator", "size_hint")],
 }
+# targets of the first modules that are emitted after all of them (added later; the order of the older definitions in
+# gen/LoopsGen.v is kept)
+LOOP_LATE = {("bit_vector", "iter"), ("bit_vector", "unary_iter")}
 # functions of broadword.rs called in their generated form (gen/BroadwordGen.v): name -> (parameter types, result type)
 LOOP_BROADWORD_FNS = {"uleq_step_9": (["usize", "usize"], "usize")}
 # constants a module imports from its parent: module -> (required `use` line, module of the constants)
@@ -2480,14 +2764,54 @@ class LoopsGen(MethodsGen):
                 "%s : %s" % (proj, coq_type(parse_rtype(t, owner))) for _, t, proj in fields)))
         return out
 
+    def alias(self, from_owner, name):
+        if name == "Iter" and from_owner in LOOP_ITER_ALIAS:
+            return LOOP_ITER_ALIAS[from_owner]
+        return name
+
+    def generics(self, owner, trait, name):
+        out = MethodsGen.generics(self, owner, trait, name)
+        if owner in LOOP_ITER_ALIAS:
+            out["Iter"] = ("struct", LOOP_ITER_ALIAS[owner])
+        return out
+
+    def iterator_next(self, owner):
+        mod = self.module_of_owner.get(owner)
+        if mod is None or ("Iterator", "next") not in self.targets[mod]:
+            return None
+        info = self.translate(mod, "next")
+        _, _, rty = self.signature(owner, "next", "Iterator")
+        if rty[0] != "opt":
+            raise ParseError("%s::next does not return an Option" % owner)
+        return info["name"], rty[1]
+
+    def run(self):
+        late = []
+        for mod, _, _ in self.modules:
+            if mod == "compact_vector":                      # the first of the newer modules
+                for m, n in late:
+                    self.translate(m, n)
+                late = []
+            for _, name in self.targets[mod]:
+                if (mod, name) in LOOP_LATE:
+                    late.append((mod, name))
+                else:
+                    self.translate(mod, name)
+        for m, n in late:
+            self.translate(m, n)
+        return [self.done[k]["text"] for k in self.order]
+
 
 LOOPS_HEADER = """(* GENERATED by tools/translate.py from the functions with loops of src/bit_vectors/bit_vector.rs,
-   src/bit_vectors/bit_vector/unary.rs, src/bit_vectors/rank9sel/inner.rs, rank9sel.rs, darray/inner.rs and
-   darray.rs -- do not edit.
-   Proofs/LoopsTieBV.v and Proofs/LoopsTieIdx.v prove every definition equal to the hand-written model function. *)
+   src/bit_vectors/bit_vector/unary.rs, src/bit_vectors/rank9sel/inner.rs, rank9sel.rs, darray/inner.rs,
+   darray.rs, src/int_vectors/compact_vector.rs, src/mii_sequences/elias_fano.rs, elias_fano/iter.rs,
+   src/bit_vectors/sarray.rs and src/int_vectors/prefix_summed_elias_fano.rs -- do not edit.
+   Proofs/LoopsTieBV.v, Proofs/LoopsTieIdx.v and Proofs/LoopsTieSeq.v prove every definition equal to the hand-written
+   model function. *)
 From Sucds Require Import Base.Res Base.Loops Spec.WordSpec Model.BitVector Model.Rank9 Model.DArray gen.ConstsGen
   gen.MethodsGen.
 From Sucds Require gen.BroadwordGen.
+From Sucds Require Import Model.CompactVector Model.EliasFano Model.SArray Model.Psef.
 Open Scope N_scope.
 """
 
